@@ -28,6 +28,9 @@ pub struct Ctx {
     /// every jawk run of the scenario gets a thread of its own (thread-locals at their
     /// initial values, as in a fresh process), instead of sharing the worker's
     pub isolate_runs: bool,
+    /// how file arguments are named: 0 plain, 1 long with multi-byte characters, 2 with a
+    /// comma and a blank
+    pub name_style: u8,
 }
 
 impl Ctx {
@@ -42,6 +45,7 @@ impl Ctx {
             subs: Vec::new(),
             saved_trace: 0,
             isolate_runs: false,
+            name_style: 0,
         }
     }
 
@@ -153,7 +157,11 @@ impl Ctx {
     /// A fresh path in this worker's private directory (on /dev/shm).
     pub fn fresh_path(&mut self, stem: &str) -> PathBuf {
         self.file_counter += 1;
-        self.tmpdir.join(format!("{stem}{}.json", self.file_counter))
+        match self.name_style {
+            1 => self.tmpdir.join(format!("{stem}{}-ünïcödé-名前がとても長いファイルの名前é.json", self.file_counter)),
+            2 => self.tmpdir.join(format!("{stem}{},part two.json", self.file_counter)),
+            _ => self.tmpdir.join(format!("{stem}{}.json", self.file_counter)),
+        }
     }
 }
 
